@@ -256,6 +256,10 @@ func (e *Engine) verifyContract(ct *Contract) (x *Exec, err error) {
 		}
 		liveReach = append(liveReach, r.reach)
 		for k, cl := range ct.Ens {
+			if cl.Trusted {
+				x.c.Note("trusted postcondition (assumed at call sites, not checked against the body): %s: %s", ct.Name, cl.Text)
+				continue
+			}
 			env2 := &specEnv{x: x, names: names, st: r.st, old: entry, pkg: pkg, results: r.vals, sig: fn.Signature}
 			x.specDepth++
 			g := x.evalBool(cl.Expr, env2, r.reach)
